@@ -24,7 +24,7 @@ class GenError(Exception):
 DROP_ATTRS = ('non_exhaustive', 'derive', 'serde', 'allow', 'inline', 'repr', 'unsafe(no_mangle)', 'no_mangle', 'must_use',
               'cfg_attr', 'doc', 'wasm_bindgen', 'deprecated', 'default')
 HEADER_KW = ('requires', 'ensures', 'decreases', 'returns', 'no_unwind', 'opens_invariants', 'recommends')
-CLAUSE_KW = HEADER_KW + ('closure', 'attr', 'loop', 'forlabel', 'after', 'before', 'opt', 'replace', 'outline', 'note', 'entry', 'loopbefore', 'loophead', 'looptail', 'loopend')
+CLAUSE_KW = HEADER_KW + ('exit', 'closure', 'attr', 'loop', 'forlabel', 'after', 'before', 'opt', 'replace', 'outline', 'note', 'entry', 'loopbefore', 'loophead', 'looptail', 'loopend')
 
 
 @dataclass
@@ -814,6 +814,23 @@ class Unit:
         for c in clauses:
             if c[0] == 'entry':
                 edits.append(Edit(toks[body].end, toks[body].end, ' ' + c[1] + ' ', ('spec', tplpath, c[2], c[3]), prio=4))
+                rec.n_hints += 1
+            if c[0] == 'exit':
+                # ghost text before the tail expression of the body (after the last top-level `;` or `}` of the body)
+                k = body + 1
+                last_end = toks[body].end
+                while k < br[body]:
+                    t = toks[k]
+                    if t.text in ('(', '[', '{') and k in br:
+                        k = br[k]
+                        if toks[k].text == '}':
+                            last_end = toks[k].end
+                        k += 1
+                        continue
+                    if t.text == ';':
+                        last_end = t.end
+                    k += 1
+                edits.append(Edit(last_end, last_end, ' ' + c[1] + ' ', ('spec', tplpath, c[2], c[3]), prio=4))
                 rec.n_hints += 1
             if c[0] in ('loopbefore', 'loophead', 'looptail', 'loopend'):
                 mm = re.match(r'(\d+)\s*:\s*(.*)$', c[1], re.S)
